@@ -127,6 +127,59 @@ class _Return(Exception):
 
 IGNORED_DECORATORS = {'deprecated_alias', 'staticmethod'}
 
+# `@deprecated_alias(old=new)` is treated as the identity on calls that use the new keyword names.  That is an
+# assumption about neurodiffeq/_version_utils.py, so it is CHECKED on the tree under test: the two functions must have
+# exactly this canonical form (docstrings dropped, string literals abstracted); otherwise every target that meets the
+# decorator is refused.
+_ALIAS_EXPECTED = {
+    'deprecated_alias': 'def deprecated_alias(**aliases):\n\n    def deco(f):\n\n        @functools.wraps(f)\n        def wrapper(*args, **kwargs):\n'
+                        '            _rename_kwargs(f.__name__, kwargs, aliases)\n            return f(*args, **kwargs)\n        return wrapper\n    return deco',
+    '_rename_kwargs': "def _rename_kwargs(func_name, kwargs, aliases):\n    for alias, new in aliases.items():\n        if alias in kwargs:\n"
+                      "            if new in kwargs:\n                raise KeyError('S')\n            warnings.warn('S', FutureWarning)\n"
+                      "            kwargs[new] = kwargs.pop(alias)",
+}
+_alias_checked = {}
+
+
+def _canonical_source(fn):
+    import copy
+
+    class T(ast.NodeTransformer):
+        def visit_JoinedStr(self, n):
+            return ast.Constant(value='S')
+
+        def visit_Constant(self, n):
+            return ast.Constant(value='S') if isinstance(n.value, str) else n
+    fn = T().visit(copy.deepcopy(fn))
+    for sub in ast.walk(fn):
+        if isinstance(sub, ast.FunctionDef):
+            sub.body = [x for x in sub.body if not (isinstance(x, ast.Expr) and isinstance(x.value, ast.Constant))] or [ast.Pass()]
+    return ast.unparse(ast.fix_missing_locations(fn))
+
+
+def alias_decorator_problem(repo):
+    """None if <repo>/neurodiffeq/_version_utils.py defines deprecated_alias as assumed, else a message."""
+    if repo in _alias_checked:
+        return _alias_checked[repo]
+    msg = None
+    try:
+        tree = ast.parse(open(os.path.join(repo, 'neurodiffeq', '_version_utils.py')).read())
+        found = {n.name: n for n in tree.body if isinstance(n, ast.FunctionDef)}
+        for name, want in _ALIAS_EXPECTED.items():
+            if name not in found:
+                msg = f'{name} not found in _version_utils.py'
+            elif _canonical_source(found[name]) != want:
+                msg = f'_version_utils.{name} is not the keyword-renaming decorator the translator assumes'
+            if msg:
+                break
+        others = [n for n in tree.body if isinstance(n, ast.Assign) and any(isinstance(t, ast.Name) and t.id in _ALIAS_EXPECTED for t in n.targets)]
+        if others and not msg:
+            msg = 'deprecated_alias / _rename_kwargs is re-bound at module level in _version_utils.py'
+    except (OSError, SyntaxError) as e:
+        msg = f'_version_utils.py unreadable: {e}'
+    _alias_checked[repo] = msg
+    return msg
+
 
 class Module:
     def __init__(self, path, relname):
@@ -210,6 +263,10 @@ class Interp:
             dn = d.func if isinstance(d, ast.Call) else d
             if not (isinstance(dn, ast.Name) and dn.id in IGNORED_DECORATORS):
                 self.err(d, f'decorator not accepted: {ast.unparse(d)}')
+            if dn.id == 'deprecated_alias':
+                prob = alias_decorator_problem(self.repo)
+                if prob:
+                    self.err(d, prob)
         env = dict(closure_env)
         env['__owner__'] = owner
         a = node.args
